@@ -166,6 +166,7 @@ type HarnessSpec struct {
 	Note      string // bounds in words
 	GoQueue   bool
 	AbstractBig bool // allocations of non-constant size become length-abstracted arrays (contents not tracked)
+	FeasSecs  int // budget (seconds) for solver feasibility queries during symbolic execution (default 40)
 	HookLimit int // how many times vOnBlock may run at one blocking point
 	NoDedupe  bool // map range: do not de-duplicate keys (only for idempotent set-algebra loops, stated as a cut)
 	Solvers   []string
@@ -258,6 +259,10 @@ func newEngine(l *loaded, hs HarnessSpec) *Engine {
 	}
 	e.goQueue = hs.GoQueue
 	e.rangeNoDedupe = hs.NoDedupe
+	e.feasBudget = 40
+	if hs.FeasSecs > 0 {
+		e.feasBudget = float64(hs.FeasSecs)
+	}
 	e.hookLimit = 4
 	if hs.HookLimit > 0 {
 		e.hookLimit = hs.HookLimit
